@@ -84,6 +84,9 @@ class SqlFluffLineageAnalyzer(LineageAnalyzer):
             for e in parsed.violations
             if isinstance(e, (SQLLexError, SQLParseError))
         ]
+        if not violations and not parsed.parsed_variants:
+            # templating failed, there is nothing that the parser could parse
+            violations = [str(e) for e in parsed.violations]
         if violations:
             violation_msg = "\n".join(violations)
             raise InvalidSyntaxException(
